@@ -246,7 +246,7 @@ Proof.
 Qed.
 
 Section CardFacts.
-  Variable hash : str -> N.
+  Variable hash : val -> N.
   Variable cap : Z.
 
   Lemma sk_cold xs : fold_left (sk_add cap) xs Cold = Cold.
@@ -278,9 +278,9 @@ Section CardFacts.
   Lemma sk_run_concat inss : sk_run cap inss = fold_left (sk_add cap) (concat inss) (Warm []).
   Proof. unfold sk_run. apply fold_left_concat. Qed.
 
-  Lemma sets_concat (inss : list (list N)) (cols : list (list str)) :
-    Forall2 (fun ins col => forall h, In h ins <-> In h (map hash (filter nonempty col))) inss cols ->
-    forall h, In h (concat inss) <-> In h (map hash (filter nonempty (concat cols))).
+  Lemma sets_concat (inss : list (list N)) (cols : list (list val)) :
+    Forall2 (fun ins col => forall h, In h ins <-> In h (map hash (filter truthy col))) inss cols ->
+    forall h, In h (concat inss) <-> In h (map hash (filter truthy (concat cols))).
   Proof.
     induction 1 as [|ins col inss cols H F IH]; intro h; cbn [concat]; [tauto|].
     rewrite filter_app, map_app, !in_app_iff, H, IH. tauto.
@@ -288,15 +288,15 @@ Section CardFacts.
 
   (* whatever each batch inserts — its set of values in any order, or with repetitions — the
      reported cardinality is the specification on the concatenated column *)
-  Lemma card_any_order (inss : list (list N)) (cols : list (list str)) : 0 <= cap ->
-    Forall2 (fun ins col => forall h, In h ins <-> In h (map hash (filter nonempty col))) inss cols ->
+  Lemma card_any_order (inss : list (list N)) (cols : list (list val)) : 0 <= cap ->
+    Forall2 (fun ins col => forall h, In h ins <-> In h (map hash (filter truthy col))) inss cols ->
     sk_len (sk_run cap inss) = card_spec hash cap (concat cols).
   Proof.
     intros Hc F. rewrite sk_run_concat, sk_len_fold by assumption. unfold card_spec. cbv zeta. rewrite dedup_nodup.
     rewrite (same_set_nodup_length N.eq_dec _ _ (sets_concat _ _ F)). reflexivity.
   Qed.
 
-  Lemma batch_ins_set col h : In h (batch_ins hash col) <-> In h (map hash (filter nonempty col)).
+  Lemma batch_ins_set col h : In h (batch_ins hash col) <-> In h (map hash (filter truthy col)).
   Proof.
     unfold batch_ins. rewrite dedup_nodup, !in_map_iff. split; intros [v [E I]]; exists v; split; auto;
       rewrite filter_In in *; rewrite nodup_In in *; assumption.
@@ -309,14 +309,14 @@ Section CardFacts.
     induction bs as [|b bs IH]; cbn [map]; constructor; [apply batch_ins_set|assumption].
   Qed.
 
-  Lemma nodup_map_inj_length (l : list str) :
+  Lemma nodup_map_inj_length (l : list val) :
     (forall u v, In u l -> In v l -> hash u = hash v -> u = v) ->
-    length (nodup N.eq_dec (map hash l)) = length (nodup str_eq_dec l).
+    length (nodup N.eq_dec (map hash l)) = length (nodup val_eq_dec l).
   Proof.
     induction l as [|a l IH]; intro Inj; [reflexivity|]. cbn [map nodup].
     assert (Inj' : forall u v, In u l -> In v l -> hash u = hash v -> u = v)
       by (intros; apply Inj; cbn [In]; auto).
-    destruct (in_dec N.eq_dec (hash a) (map hash l)) as [i|n], (in_dec str_eq_dec a l) as [i'|n'];
+    destruct (in_dec N.eq_dec (hash a) (map hash l)) as [i|n], (in_dec val_eq_dec a l) as [i'|n'];
       cbn [length]; try (rewrite IH by assumption; reflexivity).
     - exfalso. apply in_map_iff in i. destruct i as [v [E I]]. apply n'.
       assert (v = a) by (apply Inj; cbn [In]; auto). subst. assumption.
@@ -325,22 +325,22 @@ Section CardFacts.
 
   Lemma card_exact j (bs : list batch) : 0 <= cap ->
     let col := column j (concat bs) in
-    (forall u v, In u col -> In v col -> u <> [] -> v <> [] -> hash u = hash v -> u = v) ->
-    Z.of_nat (distinct_nonempty col) <= cap ->
-    card hash cap j bs = Some (distinct_nonempty col).
+    (forall u v, In u col -> In v col -> truthy u = true -> truthy v = true -> hash u = hash v -> u = v) ->
+    Z.of_nat (distinct_truthy col) <= cap ->
+    card hash cap j bs = Some (distinct_truthy col).
   Proof.
-    intros Hc col Inj Hd. rewrite card_is_spec by assumption. fold col. unfold card_spec, distinct_nonempty in *.
+    intros Hc col Inj Hd. rewrite card_is_spec by assumption. fold col. unfold card_spec, distinct_truthy in *.
     cbv zeta. rewrite !dedup_nodup in *. rewrite nodup_map_inj_length.
-    - destruct (Z.leb_spec (Z.of_nat (length (nodup str_eq_dec (filter nonempty col)))) cap); [reflexivity|lia].
+    - destruct (Z.leb_spec (Z.of_nat (length (nodup val_eq_dec (filter truthy col)))) cap); [reflexivity|lia].
     - intros u v Iu Iv. apply filter_In in Iu. apply filter_In in Iv. destruct Iu as [Iu Nu], Iv as [Iv Nv].
-      apply Inj; auto; intro; subst; discriminate.
+      apply Inj; auto.
   Qed.
 End CardFacts.
 
 (* ====================================================================================== *)
 (* (ii) bounded counter and histogram                                                      *)
 
-Definition exact_run (col : list str) : al str := fold_left (incr str_eq_dec) col [].
+Definition exact_run (col : list val) : al val := fold_left (incr val_eq_dec) col [].
 
 Lemma bc_run_concat bound cols : bc_run bound cols = fold_left (bc_add bound) (concat cols) [].
 Proof. unfold bc_run. apply fold_left_concat. Qed.
@@ -353,10 +353,10 @@ Proof. unfold counter. rewrite bc_run_concat, column_concat. reflexivity. Qed.
 Lemma wf_exact_run col : wf (exact_run col).
 Proof. apply wf_fold_incr. apply wf_nil. Qed.
 
-Lemma get_exact_run col v : get str_eq_dec (exact_run col) v = cnt str_eq_dec col v.
+Lemma get_exact_run col v : get val_eq_dec (exact_run col) v = cnt val_eq_dec col v.
 Proof. unfold exact_run. rewrite get_fold_incr. reflexivity. Qed.
 
-Lemma keys_exact_run_perm col : Permutation (map fst (exact_run col)) (nodup str_eq_dec col).
+Lemma keys_exact_run_perm col : Permutation (map fst (exact_run col)) (nodup val_eq_dec col).
 Proof.
   apply NoDup_Permutation.
   - apply wf_exact_run.
@@ -364,23 +364,23 @@ Proof.
   - intro x. unfold exact_run. rewrite keys_fold_incr, nodup_In. cbn [map In]. tauto.
 Qed.
 
-Lemma length_exact_run col : length (exact_run col) = length (nodup str_eq_dec col).
+Lemma length_exact_run col : length (exact_run col) = length (nodup val_eq_dec col).
 Proof. rewrite <- (map_length fst). apply Permutation_length, keys_exact_run_perm. Qed.
 
-Lemma nodup_length_snoc (col : list str) v :
-  (length (nodup str_eq_dec col) <= length (nodup str_eq_dec (col ++ [v])))%nat.
+Lemma nodup_length_snoc (col : list val) v :
+  (length (nodup val_eq_dec col) <= length (nodup val_eq_dec (col ++ [v])))%nat.
 Proof.
   apply NoDup_incl_length; [apply NoDup_nodup|]. intros x. rewrite !nodup_In, in_app_iff. tauto.
 Qed.
 
-Lemma bc_exact bound col : Z.of_nat (length (nodup str_eq_dec col)) < bound ->
+Lemma bc_exact bound col : Z.of_nat (length (nodup val_eq_dec col)) < bound ->
   fold_left (bc_add bound) col [] = exact_run col.
 Proof.
   induction col as [|v col IH] using rev_ind; intro H; [reflexivity|].
   unfold exact_run. rewrite !fold_left_app. cbn [fold_left]. fold (exact_run col).
   pose proof (nodup_length_snoc col v) as M. rewrite IH by lia.
   unfold bc_add. rewrite length_exact_run.
-  destruct (Z.ltb_spec (Z.of_nat (length (nodup str_eq_dec col))) bound); [reflexivity|lia].
+  destruct (Z.ltb_spec (Z.of_nat (length (nodup val_eq_dec col))) bound); [reflexivity|lia].
 Qed.
 
 Lemma al_as_map {A} (f : A -> Z) (s : list (A * Z)) :
@@ -393,17 +393,17 @@ Qed.
 
 Lemma hist_exact edges col : hist_of edges (exact_run col) = hist_spec edges col.
 Proof.
-  unfold hist_of, hist_spec. cbv zeta. apply map_ext. intro x. f_equal. rewrite (dedup_nodup _ str_eq_dec col).
-  rewrite (al_as_map (cnt str_eq_dec col) (exact_run col)).
-  - rewrite (filter_map_comm (fun v => cnt str_eq_dec col v) (fun c => x <? c)).
-    rewrite (filter_map_comm (fun k => (k, cnt str_eq_dec col k))). rewrite map_length. rewrite map_length. cbn [snd]. apply length_filter_perm, keys_exact_run_perm.
-  - intros [k c] I. cbn [fst snd]. apply (wf_In _ str_eq_dec) in I; [|apply wf_exact_run].
+  unfold hist_of, hist_spec. cbv zeta. apply map_ext. intro x. f_equal. rewrite (dedup_nodup _ val_eq_dec col).
+  rewrite (al_as_map (cnt val_eq_dec col) (exact_run col)).
+  - rewrite (filter_map_comm (fun v => cnt val_eq_dec col v) (fun c => x <? c)).
+    rewrite (filter_map_comm (fun k => (k, cnt val_eq_dec col k))). rewrite map_length. rewrite map_length. cbn [snd]. apply length_filter_perm, keys_exact_run_perm.
+  - intros [k c] I. cbn [fst snd]. apply (wf_In _ val_eq_dec) in I; [|apply wf_exact_run].
     rewrite get_exact_run in I. lia.
 Qed.
 
 Lemma hist_is_spec edges bound j (bs : list batch) :
   let col := column j (concat bs) in
-  Z.of_nat (length (nodup str_eq_dec col)) < bound ->
+  Z.of_nat (length (nodup val_eq_dec col)) < bound ->
   hist edges bound j bs = hist_spec edges col.
 Proof.
   intros col H. unfold hist. rewrite counter_is_concat. fold col. rewrite bc_exact by assumption.
@@ -413,8 +413,8 @@ Qed.
 (* below the bound the stored count of every value is its exact number of occurrences *)
 Lemma counter_exact bound j (bs : list batch) v :
   let col := column j (concat bs) in
-  Z.of_nat (length (nodup str_eq_dec col)) < bound ->
-  get str_eq_dec (counter bound j bs) v = cnt str_eq_dec col v.
+  Z.of_nat (length (nodup val_eq_dec col)) < bound ->
+  get val_eq_dec (counter bound j bs) v = cnt val_eq_dec col v.
 Proof.
   intros col H. rewrite counter_is_concat. fold col. rewrite bc_exact by assumption. apply get_exact_run.
 Qed.
@@ -422,20 +422,20 @@ Qed.
 (* ====================================================================================== *)
 (* (iii) rare values                                                                       *)
 
-Lemma count_pair j' (l : list str) j v :
+Lemma count_pair j' (l : list val) j v :
   count_occ key_eq_dec (map (fun x => (j', x)) l) (j, v) =
-  if Nat.eq_dec j j' then count_occ str_eq_dec l v else 0%nat.
+  if Nat.eq_dec j j' then count_occ val_eq_dec l v else 0%nat.
 Proof.
   induction l as [|a l IH]; cbn [map count_occ].
   - destruct (Nat.eq_dec j j'); reflexivity.
   - rewrite IH. destruct (key_eq_dec (j', a) (j, v)) as [E|E], (Nat.eq_dec j j') as [E1|E1],
-      (str_eq_dec a v) as [E2|E2]; try reflexivity; try (inversion E; congruence);
+      (val_eq_dec a v) as [E2|E2]; try reflexivity; try (inversion E; congruence);
       exfalso; apply E; congruence.
 Qed.
 
 Lemma count_keys_seq (b : list row) a n j v :
   count_occ key_eq_dec (flat_map (fun j => map (fun v => (j, v)) (column j b)) (seq a n)) (j, v) =
-  if ((a <=? j) && (j <? a + n))%nat then count_occ str_eq_dec (column j b) v else 0%nat.
+  if ((a <=? j) && (j <? a + n))%nat then count_occ val_eq_dec (column j b) v else 0%nat.
 Proof.
   revert a. induction n as [|n IH]; intro a; cbn [seq flat_map].
   - destruct (Nat.leb_spec a j), (Nat.ltb_spec j (a + 0)); cbn; try reflexivity; lia.
@@ -503,7 +503,7 @@ Section RareFacts.
   Proof.
     destruct s as [st ign]. intros (W & Hi & Hg). cbn [fst snd] in *. unfold rv_batch. cbv beta iota zeta.
     set (st1 := fold_left (rv_count ign) (keys_of ncols b) st).
-    assert (W1 : wf st1) by (apply (rv_fold ign (keys_of ncols b) st (0%nat, [])); assumption).
+    assert (W1 : wf st1) by (apply (rv_fold ign (keys_of ncols b) st (0%nat, PyNone)); assumption).
     assert (G1 : forall k, get key_eq_dec st1 k =
                            get key_eq_dec st k + (if memb key_eq_dec k ign then 0 else tot b k)).
     { intro k. unfold st1. rewrite <- cnt_keys_of. apply rv_fold. assumption. }
@@ -616,52 +616,64 @@ Lemma rare_old_refuted :
     get key_eq_dec (rare_old thr 1 s2) k = 0 /\
     get key_eq_dec (rare thr 1 s1) k = 0.
 Proof.
-  exists 2, [[[[97%N]]; [[97%N]]; [[97%N]]; [[98%N]]]; [[[97%N]]; [[98%N]]; [[99%N]]]],
-         [[[[97%N]]; [[97%N]]; [[97%N]]; [[98%N]]; [[97%N]]; [[98%N]]; [[99%N]]]], (0%nat, [97%N]).
+  exists 2, [[[V [97%N]]; [V [97%N]]; [V [97%N]]; [V [98%N]]]; [[V [97%N]]; [V [98%N]]; [V [99%N]]]],
+         [[[V [97%N]]; [V [97%N]]; [V [97%N]]; [V [98%N]]; [V [97%N]]; [V [98%N]]; [V [99%N]]]], (0%nat, V [97%N]).
   vm_compute. repeat split; reflexivity.
 Qed.
 
 (* ====================================================================================== *)
 (* (iv) coverage                                                                           *)
 
-Lemma filter_cons_len (a : str) l' (col : list str) : ~ In a l' ->
-  length (filter (fun v => memb str_eq_dec v (a :: l')) col) =
-  (count_occ str_eq_dec col a + length (filter (fun v => memb str_eq_dec v l') col))%nat.
+Lemma filter_cons_len (a : val) l' (col : list val) : ~ In a l' ->
+  length (filter (fun v => memb val_eq_dec v (a :: l')) col) =
+  (count_occ val_eq_dec col a + length (filter (fun v => memb val_eq_dec v l') col))%nat.
 Proof.
   intro Na. induction col as [|v col IH]; [reflexivity|]. cbn [filter count_occ].
-  destruct (memb str_eq_dec v (a :: l')) eqn:M1, (memb str_eq_dec v l') eqn:M2, (str_eq_dec v a) as [E|E];
+  destruct (memb val_eq_dec v (a :: l')) eqn:M1, (memb val_eq_dec v l') eqn:M2, (val_eq_dec v a) as [E|E];
     cbn [length]; rewrite IH; try lia; exfalso;
     try (apply memb_true in M1); try (apply memb_true in M2);
-    try (assert (N1 : ~ In v (a :: l')) by (rewrite <- (memb_true _ str_eq_dec); congruence));
-    try (assert (N2 : ~ In v l') by (rewrite <- (memb_true _ str_eq_dec); congruence)); cbn [In] in *;
+    try (assert (N1 : ~ In v (a :: l')) by (rewrite <- (memb_true _ val_eq_dec); congruence));
+    try (assert (N2 : ~ In v l') by (rewrite <- (memb_true _ val_eq_dec); congruence)); cbn [In] in *;
     subst; intuition congruence.
 Qed.
 
-Lemma sum_counts l (col : list str) : NoDup l ->
-  sum_Z (map (cnt str_eq_dec col) l) = Z.of_nat (length (filter (fun v => memb str_eq_dec v l) col)).
+Lemma sum_counts l (col : list val) : NoDup l ->
+  sum_Z (map (cnt val_eq_dec col) l) = Z.of_nat (length (filter (fun v => memb val_eq_dec v l) col)).
 Proof.
   induction 1 as [|a l Na N IH]; cbn [map sum_Z fold_right].
   - unfold sum_Z. cbn. induction col; cbn; auto.
   - rewrite filter_cons_len by assumption. unfold sum_Z in *. rewrite IH. unfold cnt. lia.
 Qed.
 
-Definition missing_cells (syms col : list str) : Z :=
-  Z.of_nat (length (filter (fun v => memb str_eq_dec v syms) col)).
+(* the cells holding one of the missing-value symbols: strings only — nan / None cells are never among them *)
+Definition missing_cells (syms : list str) (col : list val) : Z :=
+  Z.of_nat (length (filter (fun v => memb val_eq_dec v (map V syms)) col)).
+
+Lemma NoDup_map_V l : NoDup l -> NoDup (map V l).
+Proof.
+  induction 1 as [|a l Na N IH]; cbn [map]; constructor; [|assumption].
+  intro I. apply in_map_iff in I. destruct I as [x [E I]]. inversion E. subst. contradiction.
+Qed.
 
 Lemma miss_count_spec syms col : miss_count syms col = missing_cells syms col.
 Proof.
-  unfold miss_count, missing_cells. rewrite dedup_nodup. rewrite sum_counts by apply NoDup_nodup. f_equal. f_equal.
+  unfold miss_count, missing_cells. rewrite dedup_nodup.
+  rewrite <- (map_map V (cnt val_eq_dec col)).
+  rewrite sum_counts by (apply NoDup_map_V, NoDup_nodup). f_equal. f_equal.
   apply filter_ext. intro v.
-  destruct (memb str_eq_dec v (nodup str_eq_dec syms)) eqn:M1, (memb str_eq_dec v syms) eqn:M2; auto.
-  - apply memb_true in M1. apply memb_false in M2. apply nodup_In in M1. contradiction.
-  - apply memb_false in M1. apply memb_true in M2. exfalso. apply M1. apply nodup_In. assumption.
+  assert (E : In v (map V (nodup str_eq_dec syms)) <-> In v (map V syms)).
+  { rewrite !in_map_iff. split; intros [x [Ex Ix]]; exists x; (split; [assumption|]);
+      [apply nodup_In in Ix|apply nodup_In]; assumption. }
+  destruct (memb val_eq_dec v (map V (nodup str_eq_dec syms))) eqn:M1, (memb val_eq_dec v (map V syms)) eqn:M2; auto.
+  - apply memb_true in M1. apply memb_false in M2. tauto.
+  - apply memb_false in M1. apply memb_true in M2. tauto.
 Qed.
 
 Lemma filter_len_le {A} (p : A -> bool) l : (length (filter p l) <= length l)%nat.
 Proof. induction l as [|a l IH]; cbn [filter length]; [lia|]. destruct (p a); cbn [length]; lia. Qed.
 
 Lemma missing_le syms col : 0 <= missing_cells syms col <= Z.of_nat (length col).
-Proof. unfold missing_cells. pose proof (filter_len_le (fun v => memb str_eq_dec v syms) col). lia. Qed.
+Proof. unfold missing_cells. pose proof (filter_len_le (fun v => memb val_eq_dec v (map V syms)) col). lia. Qed.
 
 Lemma cov_batch_spec syms col : col <> [] ->
   (cov_batch syms col * inject_Z (Z.of_nat (length col)) ==
@@ -793,7 +805,7 @@ Qed.
 (* ====================================================================================== *)
 (* split independence                                                                      *)
 
-Lemma split_indep (hash : str -> N) cap edges bound thr ncols (s1 s2 : list batch) :
+Lemma split_indep (hash : val -> N) cap edges bound thr ncols (s1 s2 : list batch) :
   0 <= cap -> concat s1 = concat s2 ->
   (forall j, card hash cap j s1 = card hash cap j s2) /\
   (forall j, counter bound j s1 = counter bound j s2 /\ hist edges bound j s1 = hist edges bound j s2) /\
@@ -807,7 +819,7 @@ Proof.
 Qed.
 
 (* every composition of the row count gives the same statistics *)
-Lemma compositions_agree (hash : str -> N) cap edges bound thr ncols (rows : list row) sz1 sz2 :
+Lemma compositions_agree (hash : val -> N) cap edges bound thr ncols (rows : list row) sz1 sz2 :
   0 <= cap -> list_sum sz1 = length rows -> list_sum sz2 = length rows ->
   (forall j, card hash cap j (cut sz1 rows) = card hash cap j (cut sz2 rows)) /\
   (forall j, hist edges bound j (cut sz1 rows) = hist edges bound j (cut sz2 rows)) /\
@@ -820,12 +832,72 @@ Proof.
 Qed.
 
 (* ====================================================================================== *)
+(* parsed rows with None cells and the frame of a batch                                     *)
+
+Lemma frame_row_none_free (b : list rrow) (r : rrow) a :
+  forallb (fun c => negb (is_none c)) r = true ->
+  map (frame_cell b) (combine (seq a (length r)) r) = map lift_cell r.
+Proof.
+  revert a. induction r as [|c r IH]; intros a H; [reflexivity|]. cbn [length seq combine map].
+  cbn [forallb] in H. apply andb_true_iff in H. destruct H as [Hc Hr]. f_equal; [|apply IH; assumption].
+  destruct c; [reflexivity|discriminate].
+Qed.
+
+Lemma frame_rows_none_free (b rows : list rrow) : none_free rows = true ->
+  map (fun r => map (frame_cell b) (combine (seq 0 (length r)) r)) rows = lift rows.
+Proof.
+  induction rows as [|r rows IH]; intro H; [reflexivity|]. unfold none_free in H. cbn [forallb] in H.
+  apply andb_true_iff in H. destruct H as [Hr Hrows]. cbn [map lift]. f_equal.
+  - apply frame_row_none_free. assumption.
+  - apply IH. assumption.
+Qed.
+
+(* without None cells the frame holds every cell's string, whatever the batch *)
+Lemma frame_none_free (b : list rrow) : none_free b = true -> frame_batch b = lift b.
+Proof. apply frame_rows_none_free. Qed.
+
+Lemma frames_none_free (s : list (list rrow)) : Forall (fun b => none_free b = true) s ->
+  concat (frames s) = lift (concat s).
+Proof.
+  induction 1 as [|b s Hb F IH]; [reflexivity|]. unfold frames in *. cbn [map concat].
+  rewrite IH, frame_none_free by assumption. unfold lift. rewrite map_app. reflexivity.
+Qed.
+
+(* split independence at the level of parsed rows, for histories without None cells *)
+Lemma raw_split_indep (hash : val -> N) cap edges bound thr ncols (s1 s2 : list (list rrow)) :
+  0 <= cap -> Forall (fun b => none_free b = true) s1 -> Forall (fun b => none_free b = true) s2 ->
+  concat s1 = concat s2 ->
+  (forall j, card hash cap j (frames s1) = card hash cap j (frames s2)) /\
+  (forall j, counter bound j (frames s1) = counter bound j (frames s2) /\
+             hist edges bound j (frames s1) = hist edges bound j (frames s2)) /\
+  Permutation (rare thr ncols (frames s1)) (rare thr ncols (frames s2)) /\
+  (forall k, get key_eq_dec (rare thr ncols (frames s1)) k = get key_eq_dec (rare thr ncols (frames s2)) k).
+Proof.
+  intros Hc F1 F2 E. apply split_indep; [assumption|]. rewrite !frames_none_free by assumption. rewrite E. reflexivity.
+Qed.
+
+(* None cells break it: pandas stores nan (truthy, a key of its own) when the batch's column also holds
+   strings and None (falsy, another key) when it does not.  Rows [None; a; None] in one batch or cut 1 | 2 *)
+Lemma none_cells_refuted :
+  exists (hash : val -> N) (s1 s2 s3 : list (list rrow)),
+    concat s1 = concat s2 /\ concat s1 = concat s3 /\
+    card hash 262144 0 (frames s1) = Some 2%nat /\ card hash 262144 0 (frames s2) = Some 1%nat /\
+    hist [0; 1] 30000 0 (frames s1) = [2; 1] /\ hist [0; 1] 30000 0 (frames s3) = [3; 0] /\
+    rare 1 1 (frames s1) = [((0%nat, V [97%N]), 1)] /\
+    rare 1 1 (frames s3) = [((0%nat, PyNone), 1); ((0%nat, V [97%N]), 1); ((0%nat, NaN), 1)].
+Proof.
+  exists (fun v => match v with V [x] => x | NaN => 1%N | _ => 0%N end),
+         [[[None]; [Some [97%N]]; [None]]], [[[None]]; [[Some [97%N]]]; [[None]]], [[[None]]; [[Some [97%N]]; [None]]].
+  vm_compute. repeat split; reflexivity.
+Qed.
+
+(* ====================================================================================== *)
 (* non-vacuity: concrete, non-trivial instances of the hypotheses                           *)
 
 Module Examples.
-  Definition a : str := [97%N]. Definition b : str := [98%N]. Definition c : str := [99%N].
-  Definition e : str := []. Definition na : str := [78%N; 65%N].
-  Definition h1 (v : str) : N := match v with [x] => x | _ => 0%N end.
+  Definition a : val := V [97%N]. Definition b : val := V [98%N]. Definition c : val := V [99%N].
+  Definition e : val := V []. Definition na : val := V [78%N; 65%N].
+  Definition h1 (v : val) : N := match v with V [x] => x | _ => 0%N end.
   Definition rows : list row := [[a; e]; [a; b]; [a; na]; [b; e]; [a; b]; [c; e]].
   Definition sp1 : list batch := cut [4; 2]%nat rows.
   Definition sp2 : list batch := cut [1; 2; 3]%nat rows.
@@ -839,8 +911,8 @@ Module Examples.
   (* card_exact: hypotheses hold for column 0 of the table, three distinct non-empty values *)
   Example ex_card_inj :
     let col := column 0 (concat sp1) in
-    (forall u v, In u col -> In v col -> u <> [] -> v <> [] -> h1 u = h1 v -> u = v) /\
-    Z.of_nat (distinct_nonempty col) <= 262144 /\ distinct_nonempty col = 3%nat.
+    (forall u v, In u col -> In v col -> truthy u = true -> truthy v = true -> h1 u = h1 v -> u = v) /\
+    Z.of_nat (distinct_truthy col) <= 262144 /\ distinct_truthy col = 3%nat.
   Proof.
     cbv zeta. split; [|vm_compute; split; [discriminate|reflexivity]].
     intros u v Iu Iv _ _. vm_compute in Iu, Iv.
@@ -856,7 +928,7 @@ Module Examples.
   Example ex_card_cold : card h1 2 0 sp1 = None /\ card h1 3 0 sp1 = Some 3%nat.
   Proof. vm_compute. split; reflexivity. Qed.
 
-  Example ex_hist_hyp : Z.of_nat (length (nodup str_eq_dec (column 0 (concat sp1)))) < 30000.
+  Example ex_hist_hyp : Z.of_nat (length (nodup val_eq_dec (column 0 (concat sp1)))) < 30000.
   Proof. vm_compute. reflexivity. Qed.
 
   (* the bound hypothesis is needed: with 2 slots the third value and every later cell are dropped *)
@@ -870,7 +942,7 @@ Module Examples.
     In (0%nat, a) (snd (rv_run 2 2 sp1)) /\ get key_eq_dec (rare_old 2 2 sp1) (0%nat, a) = 1.
   Proof. repeat split; try (vm_compute; reflexivity). apply (memb_true _ key_eq_dec). vm_compute. reflexivity. Qed.
 
-  Example ex_cov : cov_batch [e; na] (column 1 (concat sp1)) == 100 # 3 /\
+  Example ex_cov : cov_batch [[]; [78%N; 65%N]] (column 1 (concat sp1)) == 100 # 3 /\
                    cov_annot (coverages (split_on 44 [44%N; 78%N; 65%N]) 1 sp1) = 37 /\
                    cov_annot (coverages (split_on 44 [44%N; 78%N; 65%N]) 1 sp2) = 27.
   Proof. vm_compute. repeat split; reflexivity. Qed.
@@ -879,4 +951,14 @@ Module Examples.
   Example ex_round : cov_annot [9996 # 100] = 100 /\ cov_annot [9994 # 100] = 99 /\ cov_annot [9995 # 100] = 100 /\
                      cov_annot [100 # 1; 999 # 10] = 100 /\ cov_annot [4995 # 100] = 50 /\ cov_annot [4985 # 100] = 49.
   Proof. vm_compute. repeat split; reflexivity. Qed.
+  (* coverage: a None cell (nan or None in the frame) is not a missing symbol and the denominator is the
+     number of rows: ['u', None, '{}', 'v'] with symbols '', '{}' is 75 *)
+  Example ex_cov_none :
+    cov_batch [[]; [123%N; 125%N]] (column 0 (frame_batch [[Some [117%N]]; [None]; [Some [123%N; 125%N]]; [Some [118%N]]])) == 75 /\
+    cov_batch [[]; [123%N; 125%N]] (column 0 (frame_batch [[None]; [None]])) == 100.
+  Proof. vm_compute. split; reflexivity. Qed.
+
+  (* the frame of a batch: None becomes nan next to strings, stays None in an all-None column *)
+  Example ex_frame : frame_batch [[Some [97%N]; None]; [None; None]] = [[a; PyNone]; [NaN; PyNone]].
+  Proof. reflexivity. Qed.
 End Examples.
